@@ -37,7 +37,8 @@ func genSchedule(r *rand.Rand, pl *plan.Plan, maxPre int, stepsHint int) {
 	if maxPre > 0 && stepsHint > 0 {
 		n := r.IntN(maxPre + 1)
 		for i := 0; i < n; i++ {
-			pl.Sched.Preempts = append(pl.Sched.Preempts, 1+r.IntN(stepsHint))
+			// placed relative to the measured length of the run (see plan.Sched.PreemptFrac)
+			pl.Sched.PreemptFrac = append(pl.Sched.PreemptFrac, r.Float64())
 		}
 	}
 }
